@@ -10,7 +10,7 @@ BASE=/dev/shm; [ -d "$BASE" ] && [ -w "$BASE" ] || BASE="${TMPDIR:-/var/tmp}"
 SCR="$(mktemp -d "$BASE/verif.XXXXXX")"; trap 'rm -rf "$SCR"' EXIT
 mkdir -p "$SCR/src"
 rsync -a --exclude .git "${VERIF_REPO:-/repo}"/ "$SCR/src"/
-"$VERIF/bin/mkinst" -vos news.go,threaded_news.go,account_manager.go,ban.go "$SCR/src/hotline" "$SCR/src/internal/mobius"
+"$VERIF/bin/mkinst" -vos news.go,threaded_news.go,account_manager.go,ban.go,files.go "$SCR/src/hotline" "$SCR/src/internal/mobius"
 cp -r "$VERIF/harness" "$SCR/src/verifh"
 (cd "$SCR/src" && go build -trimpath -tags verif -o "$SCR/vcheck" ./verifh/cmd/vcheck)
 echo "setup ok"
